@@ -644,7 +644,12 @@ class Interp(Analyzer):
             if lb_.is_const() and lb_.k > 0 and al is not None and au is not None and al >= 0:
                 if la.is_const():
                     return V_const(la.k // lb_.k)
-                return ('int', self.fresh(st, ty, al // lb_.k, au // lb_.k, 'div', key=self._vnkey))
+                q = self.fresh(st, ty, al // lb_.k, au // lb_.k, 'div', key=self._vnkey)
+                if lb_.k > 1 and len(st.cons) < 100:
+                    # q = a / c:  c*q <= a <= c*q + c - 1
+                    st.cons.add(q.scale(lb_.k) - la)
+                    st.cons.add(la - q.scale(lb_.k) - Lin.const(lb_.k - 1))
+                return ('int', q)
             if None not in (al, au, bl, bu) and al >= 0 and bl > 0:
                 return ('int', self.fresh(st, ty, al // bu, au // bl, 'div', key=self._vnkey))
             if None not in (al, au, bl, bu) and bl > 0:
